@@ -65,6 +65,7 @@ func c11WorldFor(session string) *c11World {
 	}
 	sort.Strings(reg.URIs)
 	store := modelstore.New([]*modelstore.ClientReg{reg}, opdrv.SigningKeyFor("ES256"))
+	store.PromptNoneLoginRequired = true // a request with prompt=none is refused by the storage (nobody is logged in): login_required
 	w := &c11World{store: store, h: map[string]http.Handler{}}
 	for _, router := range []string{"P", "L"} {
 		cfg := opdrv.DefaultCfg(router)
@@ -106,8 +107,11 @@ func AuthResponseCase(c *Case) M {
 		if kind != "errAuthorize" {
 			q.Set("scope", "openid")
 		}
+		if kind == "errCreate" {
+			q.Set("prompt", "none")
+		}
 		r := opdrv.Serve(h, httptest.NewRequest(http.MethodGet, opdrv.Issuer+"/authorize?"+q.Encode(), nil))
-		if kind != "errAuthorize" && r.Panic == "" {
+		if kind != "errAuthorize" && kind != "errCreate" && r.Panic == "" {
 			id := strings.TrimPrefix(r.Location, "/login?authRequestID=")
 			if r.Status != http.StatusFound || id == r.Location {
 				panic("harness: authorize failed for a fitting request: " + strconv.Itoa(r.Status) + " " + r.Body)
@@ -276,7 +280,7 @@ func recoverResponse(w *c11World, r *opdrv.RawResponse, registered, state, sessi
 				ok = append(ok, name)
 			}
 		case "error":
-			if (kind == "errCallback:" && v == "interaction_required") || (kind == "errAuthorize:" && v == "invalid_request") ||
+			if (kind == "errCallback:" && v == "interaction_required") || (kind == "errAuthorize:" && v == "invalid_request") || (kind == "errCreate:" && v == "login_required") ||
 				(kind == "errStorage:plain" && v == "server_error") || (kind == "errStorage:oidc" && v == "access_denied") {
 				ok = append(ok, name)
 			}
